@@ -56,11 +56,16 @@ fn pragmas_of(header: &str) -> (bool, bool) {
         continue;
       }
       let w: Vec<&str> = l.split_whitespace().collect();
+      // a pragma whose text cannot name a factory (`a..b`, `1+1`, `h.`, `class`) is no pragma: an acceptable one before
+      // or after it stays in force, and with none the configured default applies (seed C18-7)
+      let acceptable = |t: &str| {
+        t != "class" && t.split('.').all(|seg| !seg.is_empty() && seg.chars().all(|c| c.is_alphanumeric() || c == '_' || c == '$') && !seg.chars().next().unwrap().is_ascii_digit())
+      };
       for pair in w.chunks(2) {
-        if pair.len() == 2 && pair[0] == "@jsx" {
+        if pair.len() == 2 && pair[0] == "@jsx" && acceptable(pair[1]) {
           j = true;
         }
-        if pair.len() == 2 && pair[0] == "@jsxFrag" {
+        if pair.len() == 2 && pair[0] == "@jsxFrag" && acceptable(pair[1]) {
           f = true;
         }
       }
@@ -95,6 +100,10 @@ pub fn run(args: &Args) {
         }
         if crng.chance(1, 2) {
           lines.push(format!("@jsxFrag {}", ["Fragment", "F", "React.Fragment"][crng.below(3)]));
+        }
+        if crng.chance(1, 3) {
+          lines.push(["@jsx a..b", "@jsxFrag 1+1", "@jsx h.", "@jsx class", "@jsxFrag .F", "@jsx 1h", "@jsxFrag a..b"][crng.below(7)].to_string());
+          out.count("pragma-header=with-unacceptable-pragma");
         }
         for _ in 0..crng.below(3) {
           lines.push(["@jsxRuntime classic", "@jsxRuntime automatic", "@jsxImportSource preact", "@ts-nocheck", "Copyright the authors.", "@deno-types=\"./x.d.ts\""][crng.below(6)].to_string());
